@@ -119,8 +119,16 @@ def writesReg (mn : Mn) (o : Opd) (r : Res) : Bool :=
   | .ADC, .c | .SBC, .c | .CMP, .c | .CPX, .c | .CPY, .c | .CLC, .c | .SEC, .c => true
   | _, _ => false
 
+/-- what a function need not preserve for its caller: the N, Z and C flags at the return (the generator never
+    assumes anything about the flags behind a `JSR`: `generate_function_call` sets them Unknown, a returned value
+    is compared again) -/
+def exitDead : Res → Bool
+  | .nz | .c => true
+  | _ => false
+
 /-- is `r` overwritten before it is read, looking at the lines from `pos` on? Labels and dummies are passed
-    (a label does not change what lies ahead); the scan stops — "live" — at every branch, jump, call, return -/
+    (a label does not change what lies ahead); the scan stops — "live" — at every branch, jump and call; at
+    the return the flags are dead (`exitDead`) -/
 def deadFrom (code : VCode) (r : Res) : Nat → Nat → Bool
   | 0, _ => false
   | fuel + 1, pos =>
@@ -130,6 +138,7 @@ def deadFrom (code : VCode) (r : Res) : Nat → Nat → Bool
       if readsReg mn o r then false
       else if writesReg mn o r then true
       else deadFrom code r fuel (pos + 1)
+    | some .rts => exitDead r
     | _ => false
 
 def dead (code : VCode) (r : Res) (pos : Nat) : Bool := deadFrom code r (code.length + 1 - pos) pos
@@ -364,6 +373,39 @@ def lineOK (orig opt : VCode) (k : Nat) (K : Option Facts) (lo lp : VLine) : Boo
     | some _, .ins c .none, .ins .LDA o =>
       (c == .CLC || c == .SEC) && decide (0 < k) && orig[k - 1]? == some (.ins .LDA o) && opt[k - 1]? == some (.ins c .none)
     | _, _, _ => false
+
+/-- DIAGNOSTIC ONLY (no theorem is about it): `lineOK` with the resources `extra` assumed dead everywhere. The check
+    uses it to name the reason of a rejection ("would be accepted if the carry were dead") -/
+def lineOKWith (extra : Res → Bool) (orig opt : VCode) (k : Nat) (K : Option Facts) (lo lp : VLine) : Bool :=
+  if lo == lp then (match lo with | .ins mn _ => supported mn | _ => true)
+  else match K, lo, lp with
+    | none, _, .dummy => (match lo with | .lab _ => false | _ => true)      -- unreachable line removed
+    | some K, .ins mn o, .dummy =>
+      (supported mn && execOK mn o && removable K (fun r => extra r || dead opt r (k + 1)) mn o) ||
+      -- second half of `LDA o ; CLC|SEC` → `CLC|SEC ; (load removed)`
+      ((mn == .CLC || mn == .SEC) && o == .none && decide (0 < k) && opt[k - 1]? == some (.ins mn .none) &&
+        (match orig[k - 1]? with | some (.ins .LDA _) => true | _ => false))
+    | some _, .jmp l, .dummy =>
+      (match findLab orig l with
+       | some t => decide (k < t) && onlyFiller opt k t
+       | none => false)
+    -- a conditional branch that is known not to be taken
+    | some K, .br .BEQ _, .dummy => K.z == some false
+    | some K, .br .BNE _, .dummy => K.z == some true
+    -- `LDA o ; CLC|SEC` exchanged (first half at k, second half at k + 1)
+    | some K, .ins .LDA o, .ins c .none =>
+      (c == .CLC || c == .SEC) && execOK .LDA o && orig[k + 1]? == some (.ins c .none) &&
+        (opt[k + 1]? == some (.ins .LDA o) ||
+         -- … and the exchanged load removed afterwards
+         (opt[k + 1]? == some .dummy && removable K (fun r => extra r || r == .c || dead opt r (k + 2)) .LDA o))
+    | some _, .ins c .none, .ins .LDA o =>
+      (c == .CLC || c == .SEC) && decide (0 < k) && orig[k - 1]? == some (.ins .LDA o) && opt[k - 1]? == some (.ins c .none)
+    | _, _, _ => false
+
+
+def validateWith (extra : Res → Bool) (orig opt : VCode) : Bool :=
+  orig.length == opt.length &&
+    ((factsOf orig).zip (orig.zip opt)).zipIdx.all fun (p, k) => lineOKWith extra orig opt k p.1 p.2.1 p.2.2
 
 def checkFrom (orig opt : VCode) : Nat → List (Option Facts) → VCode → VCode → Bool
   | _, [], [], [] => true
